@@ -247,6 +247,9 @@ def trace_validate(module, cfg, cases, scratch, *, chunks=None, key="cases", ext
         tot["ok"] += sok
         tot["dev"] += sdev
         tot["fail"] += sfail
+        ex = [x for x in s[4:] if isinstance(x, int)]
+        tot.setdefault("extra", [0] * len(ex))
+        tot["extra"] = [a + b for a, b in zip(tot["extra"], ex)] if len(tot["extra"]) == len(ex) else tot["extra"]
         tot["states"] += r.get("distinct", 0)
         tot["transitions"] += r.get("generated", 0)
     for f in files:
